@@ -233,3 +233,13 @@ package fuse
 //@ func (*fsMutable).Unlink
 //@   requires fs != nil && op != nil
 //@   call deleteNSEntry#1 assert [parent-and-name] $p == op.Parent && $c == op.Name
+
+// ---- mutable mount: the size a file reports is the size of its staging file (C18: "commits what it
+// shows" - commit uploads the staging file, readers are served up to the reported size) ----------------
+//@ func (*fsMutable).WriteFile
+//@   requires fs != nil && op != nil
+//@   call WriteAt#1 assert [the-data-at-the-offset] $1 == op.Data && $2 == op.Offset
+//@   call Stat#1 bind st = $ret0
+//@   call Size#1 bind sz = $ret0
+//@   call Unlock#2 assert [reported-size-is-the-staging-file-size] sz_set && (sz >= 0 ==> nodeEntry.attr.Size == sz)
+//@   only Size 1
